@@ -181,48 +181,68 @@ func propKeyRule(c *Ctx, r *RuleResult, inPkg func(string) bool) {
 			}
 			var elems []got
 			undecided := ""
-			val := mu.Value
-			if ct, ok := val.(*ssa.ChangeType); ok {
-				val = ct.X
-			}
-			if f, ok := val.(*ssa.Function); ok && f.Parent() != nil {
-				val = &ssa.MakeClosure{Fn: f}
-			}
-			switch v := val.(type) {
-			case *ssa.Call:
-				if pfv != nil && v.Common().StaticCallee() == pfv {
-					xn, tl := elemOf(v.Common().Args[0])
-					if xn == nil {
-						undecided = "the argument of PropFindValue is not a pointer to a struct with an XMLName"
-					}
-					elems = append(elems, got{xn, tl})
-				} else {
-					undecided = "the entry is produced by a call other than PropFindValue"
-				}
-			case *ssa.MakeClosure:
-				cf := v.Fn.(*ssa.Function)
+			// what a PropFindFunc-valued expression writes: PropFindValue(x),
+			// a closure (every non-nil first result), a named function, or a
+			// factory of the library returning one of these
+			var entry func(val ssa.Value, depth int)
+			fromFn := func(cf *ssa.Function, depth int) {
 				for _, b := range cf.Blocks {
 					if len(b.Instrs) == 0 {
 						continue
 					}
 					ret, ok := b.Instrs[len(b.Instrs)-1].(*ssa.Return)
-					if !ok || len(ret.Results) != 2 {
+					if !ok {
 						continue
 					}
-					if isNilConst(ret.Results[0]) {
-						continue
+					switch len(ret.Results) {
+					case 2: // the PropFindFunc itself: (interface{}, error)
+						if isNilConst(ret.Results[0]) {
+							continue
+						}
+						xn, tl := elemOf(ret.Results[0])
+						if xn == nil {
+							undecided = "a return of the property function does not box a pointer to a struct with an XMLName"
+						}
+						elems = append(elems, got{xn, tl})
+					case 1: // a factory returning a PropFindFunc
+						entry(ret.Results[0], depth+1)
 					}
-					xn, tl := elemOf(ret.Results[0])
-					if xn == nil {
-						undecided = "a return of the closure does not box a pointer to a struct with an XMLName"
-					}
-					elems = append(elems, got{xn, tl})
 				}
-			case *ssa.Function:
-				undecided = "the entry is a named function"
-			default:
-				undecided = "unrecognised entry shape"
 			}
+			entry = func(val ssa.Value, depth int) {
+				if depth > 3 {
+					undecided = "property function produced too indirectly"
+					return
+				}
+				if ct, ok := val.(*ssa.ChangeType); ok {
+					val = ct.X
+				}
+				switch v := val.(type) {
+				case *ssa.Call:
+					if pfv != nil && v.Common().StaticCallee() == pfv {
+						xn, tl := elemOf(v.Common().Args[0])
+						if xn == nil {
+							undecided = "the argument of PropFindValue is not a pointer to a struct with an XMLName"
+						}
+						elems = append(elems, got{xn, tl})
+					} else if f := v.Common().StaticCallee(); f != nil && len(f.Blocks) > 0 && inLib(f) && f.Signature.Results().Len() == 1 {
+						fromFn(f, depth)
+					} else {
+						undecided = "the entry is produced by a call that is neither PropFindValue nor a factory of the library"
+					}
+				case *ssa.MakeClosure:
+					fromFn(v.Fn.(*ssa.Function), depth)
+				case *ssa.Function:
+					if len(v.Blocks) > 0 {
+						fromFn(v, depth)
+					} else {
+						undecided = "the entry is an external function"
+					}
+				default:
+					undecided = "unrecognised entry shape"
+				}
+			}
+			entry(mu.Value, 0)
 			if undecided != "" {
 				r.Undecided("propkey|"+fnKey(fn)+"|"+key.String(), p.instrPos(in), undecided+" (entry for <"+key.String()+">)")
 				return
